@@ -161,6 +161,7 @@ static std::string runScenario(bool seq, bool unixSock, bool both, int nclients,
 	server->start(true);
 	std::vector<std::string> replies(nclients);
 	std::vector<int> sent(nclients, 0);
+	std::vector<double> failedAt(nclients, 0.0);   // time of a connect() that failed (0: none)
 	std::vector<std::thread> cl;
 	for (int k = 0; k < nclients; k++) {
 		int delayUs = 0, holdUs = 0;
@@ -177,12 +178,13 @@ static std::string runScenario(bool seq, bool unixSock, bool both, int nclients,
 		bool useUnix = both ? (k % 2 == 1) : unixSock;
 		// in sequential mode a client queues behind the slow ones (up to 2 x 3 s inside serve()): it must wait that long for its reply
 		double replyWait = seq ? 14.0 : 3.0;
-		cl.push_back(std::thread([k, delayUs, holdUs, early, useUnix, port, replyWait, &path, &replies, &sent]() {
+		cl.push_back(std::thread([k, delayUs, holdUs, early, useUnix, port, replyWait, &path, &replies, &sent, &failedAt]() {
 			if (delayUs) usleep(delayUs);
 			String tok = String("c") + String(k);
 			if (useUnix) {
 				LocalSocket s;
-				if (!s.connect(path)) return;
+				errno = 0;
+				if (!s.connect(path)) { int e = errno; if (e == ENOENT || e == ECONNREFUSED) failedAt[k] = now(); return; }   // time the refusal came back; a full backlog (EAGAIN) is not a refusal
 				if (early) { s.close(); return; }
 				if (holdUs) usleep(holdUs);
 				s << tok + "\n";
@@ -192,7 +194,8 @@ static std::string runScenario(bool seq, bool unixSock, bool both, int nclients,
 			}
 			else {
 				Socket s;
-				if (!s.connect("127.0.0.1", port)) return;
+				errno = 0;
+				if (!s.connect("127.0.0.1", port)) { int e = errno; if (e == ECONNREFUSED) failedAt[k] = now(); return; }
 				if (early) { s.close(); return; }
 				if (holdUs) usleep(holdUs);
 				s << tok + "\n";
@@ -203,6 +206,7 @@ static std::string runScenario(bool seq, bool unixSock, bool both, int nclients,
 		}));
 	}
 	usleep(stopMs * 1000);
+	double tStop = now();
 	server->stop(true);
 	server->stopReturned = true;
 	bool runningAfter = server->running();
@@ -259,6 +263,10 @@ static std::string runScenario(bool seq, bool unixSock, bool both, int nclients,
 #else
 	int allServed = 1; (void)acceptedAll;   // production-build pass: no hook points, so no accept events to count
 #endif
+	// a connection attempt must not be REFUSED (no such path / nobody listening) while the server is running: refusals that came back clearly before stop() was called
+	int refused = 0;
+	for (int k = 0; k < nclients; k++) if (failedAt[k] > 0 && failedAt[k] < tStop - 0.02) refused++;
+	if (refused) once = 0;
 	std::string out = "served-exactly-once=" + str(once && allServed ? 1 : 0) + " replies=" + str(repliesOk) + " running=" + str(runningAfter ? 1 : 0) + " late=" + str(late) + " badsock=" + str(badsock);
 	if (!wantTrace) return out;
 	// ---- trace encoding
